@@ -214,6 +214,22 @@ func c10Attempt(c *core.Ctx) {
 			}
 			// stores to the response field of the per-request context
 			for i, l := range as.Lhs {
+				// ... or to the embedded per-attempt struct that holds it: spCtx.attemptState = attemptState{}
+				if h := ro.holder[respF]; h != nil && c10fieldSel(f, l, h) && len(as.Rhs) == len(as.Lhs) {
+					reset := false
+					if cl, ok := ast.Unparen(as.Rhs[i]).(*ast.CompositeLit); ok {
+						reset = true
+						for _, el := range cl.Elts {
+							kv, ok := el.(*ast.KeyValueExpr)
+							if !ok {
+								reset = false // positional literal: not followed
+							} else if id := c10ident(kv.Key); id != nil && f.Info.Uses[id] == types.Object(respF) && !f.Info.Types[kv.Value].IsNil() {
+								reset = false
+							}
+						}
+					}
+					st.Set("ev:respReset", map[bool]flow.Val{true: flow.True, false: flow.False}[reset])
+				}
 				if c10fieldSel(f, l, respF) {
 					if len(as.Rhs) == len(as.Lhs) && f.Info.Types[as.Rhs[i]].IsNil() {
 						st.Set("ev:respReset", flow.True)
